@@ -52,7 +52,7 @@ TInit == i \in 1..Len(Trace) /\ res = "pending"
 TNext == /\ res = "pending"
          /\ LET e == Trace[i]  f == Failed(e) IN
             /\ res' = IF f # <<>> THEN "no" ELSE IF ~Model(e) THEN "drift" ELSE "yes"
-            /\ (res' = "no" => PrintT(<<"BAD", i, "prop", f[1][1], Mechanism(e, f[1][1])>>))
+            /\ (res' = "no" => \A q \in 1..Len(f) : PrintT(<<"BAD", i, "prop", f[q][1], Mechanism(e, f[q][1])>>))
             /\ (res' = "drift" => PrintT(<<"BAD", i, "model", "", "">>))
          /\ UNCHANGED i
 TSpec == TInit /\ [][TNext]_tvars
